@@ -107,6 +107,9 @@ func (ex *Exec) callFunc(fr *frame, st *State, reach *Term, fn *ssa.Function, fr
 	fc := ex.eng.cs.Funcs[key]
 	// a callee under contract is replaced by its contract; this includes a (directly or indirectly) recursive
 	// call of the function being verified (modular treatment of recursion, partial correctness)
+	if fc != nil && fc.Opts["inline-only"] != "" && fc.Opts["summary"] != "" && ex.canInline(fn) {
+		return ex.inlineSummary(fr, st, reach, fn, fc, free, args, instr, exits)
+	}
 	if fc != nil && fc.Opts["inline-only"] == "" {
 		return ex.applyContract(fr, st, reach, fn, fc, args, instr)
 	}
@@ -1132,4 +1135,62 @@ func (ex *Exec) scopePkg() string {
 		return ex.topC.Pkg
 	}
 	return ""
+}
+
+// inlineSummary: a helper that can only be verified inlined at its call site (its behaviour depends on closures
+// the caller stores in its fields) but whose internals should not burden the rest of the caller's proof. The body
+// is executed inline from the call's pre-state and all its obligations are generated there; its `ensures` and
+// `modifies` are proved at the inline exit (obligations "summary:<callee>#n/..."); the caller then continues
+// from the pre-state through that contract alone, and the assertions generated inside the inlined region are
+// not premises of any later obligation.
+func (ex *Exec) inlineSummary(fr *frame, st *State, reach *Term, fn *ssa.Function, fc *FuncContract, free []Value, args []Value, instr ssa.Instruction, exits *[]*exit) (Value, *Term) {
+	vc := ex.vc
+	pkg := ex.eng.typesPkg(fc.Pkg)
+	pre := st.clone()
+	cname := relName(fn)
+	ex.callN["summary:"+cname]++
+	n := ex.callN["summary:"+cname]
+	se := &SpecEnv{ex: ex, pkg: pkg, names: map[string]specBinding{}, cur: pre, old: pre, reach: reach}
+	for i, p := range fn.Params {
+		se.names[p.Name()] = specBinding{args[i], p.Type()}
+	}
+	for _, l := range fc.Lets {
+		v, t := se.eval(l.Expr)
+		se.names[l.Name] = specBinding{v, t}
+	}
+	for i, r := range fc.Requires {
+		g := se.evalBool(r.Expr)
+		vc.Oblige(&Obligation{Name: fmt.Sprintf("%s/call-pre:%s#%d.%d", relName(ex.top), cname, n, i), Kind: "call-pre", Tags: ex.contractTags(), Guard: reach, Goal: g, Func: relName(ex.top), Pos: ex.posOf(instr), Note: r.Text})
+		vc.Assume(reach, g)
+	}
+	mark := len(vc.lines)
+	stIn := st.clone()
+	rv, nreach := ex.inline(fr, stIn, reach, fn, free, args, instr, exits)
+	var results []Value
+	switch v := rv.(type) {
+	case nil:
+	case Tuple:
+		results = []Value(v)
+	default:
+		results = []Value{v}
+	}
+	post := &SpecEnv{ex: ex, pkg: pkg, names: se.names, cur: stIn, old: pre, reach: nreach}
+	bindResults(post, fn.Signature, results)
+	oname := fmt.Sprintf("%s/summary:%s#%d", relName(ex.top), cname, n)
+	for k, e := range fc.Ensures {
+		g := post.evalBool(e.Expr)
+		tags := e.Tags
+		if len(tags) == 0 {
+			tags = ex.contractTags()
+		}
+		vc.Oblige(&Obligation{Name: fmt.Sprintf("%s/post#%d", oname, k), Kind: "post", Tags: tags, Guard: nreach, Goal: g, Func: relName(ex.top), Pos: fmt.Sprintf("%s:%d", e.File, e.Line), Note: e.Text})
+	}
+	if fc.HasMod {
+		ex.frameObligations(fr, fc, pre, stIn, nreach, oname+"/frame", se)
+	}
+	end := len(vc.lines)
+	vc.excl = append(vc.excl, [2]int{mark, end})
+	fc2 := *fc
+	fc2.Requires = nil
+	return ex.applyContract(fr, st, reach, fn, &fc2, args, instr)
 }
